@@ -1,5 +1,22 @@
-(* C04 — property theorems (bootstrap stage; see DESIGN.md section 6). *)
-From Verif Require Import Inflate.
-Theorem C04_spec_inflater_runs : status (inflate [] [3;0]) = Done /\ out (inflate [] [3;0]) = [].
-Proof. vm_compute. split; reflexivity. Qed.
-Print Assumptions C04_spec_inflater_runs.
+(* C04 — property theorems.  Model: RModel/Reader.v.  For truncated streams the implementation may hold back a tail the model delivers (finding F-C04); the error kind is exact.
+   Only statements, each closed by `exact`, followed by Print Assumptions. *)
+From Verif Require Import Reader ReaderProofs InflateMono.
+Open Scope N_scope.
+
+(* valid, truncated or malformed: bytes and final error depend only on the concatenated source
+   content, not on how it is cut into deliveries *)
+Theorem C04_schedule_independent : forall dict chunks1 chunks2 term,
+  concat chunks1 = concat chunks2 ->
+  rbytes (rrun dict chunks1 term) = rbytes (rrun dict chunks2 term) /\
+  rerror (rrun dict chunks1 term) = rerror (rrun dict chunks2 term).
+Proof. exact (schedule_independent inflate_mono inflate_never_fuel). Qed.
+Print Assumptions C04_schedule_independent.
+
+Theorem C04_run_is_function_of_content : forall dict chunks term,
+  (rbytes (rrun dict chunks term), rerror (rrun dict chunks term)) = final_obs dict (concat chunks) term.
+Proof. exact (rrun_spec inflate_mono inflate_never_fuel). Qed.
+Print Assumptions C04_run_is_function_of_content.
+
+Theorem C04_read_sizes_irrelevant : forall sizes l, concat (split_reads l sizes) = l.
+Proof. exact split_reads_concat. Qed.
+Print Assumptions C04_read_sizes_irrelevant.
